@@ -4,6 +4,7 @@ import (
 	"bytes"
 	"fmt"
 	"net/http"
+	"reflect"
 	"strings"
 
 	z "github.com/Oudwins/zog"
@@ -81,3 +82,48 @@ func sortStrs(xs []string) {
 		}
 	}
 }
+
+type probeItem struct {
+	Name string
+	Tags []string
+	Next *probeItem
+}
+
+// PurityProbes: shapes of schema-owned values the generated schemas do not contain (defaults whose
+// elements are structs holding slices and pointers).  After an execution the caller writes through the
+// destination; the schema's value must stay what it was and the next execution must start from it.
+func PurityProbes() []Probe {
+	var ps []Probe
+	item := z.Struct(z.Schema{"name": z.String(), "tags": z.Slice(z.String()), "next": z.Ptr(z.Struct(z.Schema{"name": z.String()}))})
+	mk := func() []probeItem {
+		return []probeItem{{Name: "n", Tags: []string{"a", "b"}, Next: &probeItem{Name: "m", Tags: []string{"c"}}}}
+	}
+	dflt := mk()
+	s := z.Slice(item).Default(dflt)
+	fp0 := Fingerprint(s)
+	var d1 []probeItem
+	errs1 := s.Validate(&d1)
+	first := valStr(reflectValue(d1), 0)
+	if len(d1) == 1 {
+		d1[0].Name = "scribbled"
+		if len(d1[0].Tags) > 0 {
+			d1[0].Tags[0] = "scribbled"
+		}
+		if d1[0].Next != nil {
+			d1[0].Next.Name = "scribbled"
+			if len(d1[0].Next.Tags) > 0 {
+				d1[0].Next.Tags[0] = "scribbled"
+			}
+		}
+	}
+	var d2 []probeItem
+	errs2 := s.Validate(&d2)
+	second := valStr(reflectValue(d2), 0)
+	p := Probe{Tag: "dest_aliases_schema", Detail: fmt.Sprintf("Slice(Struct{name, tags: Slice(String), next: Ptr(Struct)}).Default([]Item{{n [a b] &{m [c]}}}): Validate of a nil slice gave %s (issues %v); after the caller wrote through that result the next Validate gave %s (issues %v); the caller's default value is now %s",
+		first, keysOf(errs1), second, keysOf(errs2), valStr(reflectValue(dflt), 0))}
+	p.Failed = Fingerprint(s) != fp0 || first != second || valStr(reflectValue(dflt), 0) != valStr(reflectValue(mk()), 0)
+	ps = append(ps, p)
+	return ps
+}
+
+func reflectValue(x any) reflect.Value { return reflect.ValueOf(x) }
